@@ -242,7 +242,7 @@ pub fn run(env: &Env) -> i32 {
     };
     let cfg = program::GenCfg { undecided: false, plant: 130, ..Default::default() };
     if focus != 0 {
-        let cfg_f = program::GenCfg { undecided: false, plant: 60, focus, max_members: 12, max_items: 5, max_stmts: 4, ..Default::default() };
+        let cfg_f = program::GenCfg { undecided: false, plant: 60, focus, max_members: 12, max_items: 5, max_stmts: 4, cross_contract_names: prop == "C08", ..Default::default() };
         tape_stream(env, &mut st, "programs-focused", env.tier.n(16_000, 250_000), 1600, |tape, s| program_case(&prop, tape, &cfg_f, s));
     }
     tape_stream(env, &mut st, "programs", env.tier.n(16_000, 200_000), 1400, |tape, s| program_case(&prop, tape, &cfg, s));
